@@ -107,6 +107,7 @@ QQ == <<q>>     \* the property formulas of AutoAlloc take a function of queues
 C17_BacklogBound == BacklogBound(QQ)
 C17_WorkerBound == WorkerBound(QQ)
 C17_AllocSize == AllocSize(QQ)
+C17_BackoffCoversFailures == BackoffCoversFailures(QQ)
 \* a queue over its failure limits is never left active by a tick
 \* no submission while paused / over the limit / before the back-off elapsed
 C17_SubmitOnlyWhenAllowed ==
